@@ -46,6 +46,13 @@ def run(ctx):
                 scripts.append({"items": items, "hasStopFn": rnd.choice([True, False]), "dep": True,
                                 "mode": rnd.choice(["shutdown", "manage"]), "probes": False, "waitAgain": True,
                                 "policy": pol + ["stopper", "stopper", "fn", "stopper", "fn", "stopper", "fn", "stopper"]})
+    # panics while the module is being stopped: the items are still running when the stop begins and panic afterwards
+    # (reports must not be skipped "because the module is going down anyway")
+    during = c05.gen_scripts(ctx, quick, after=False, outs=PANICS + ["ok"], per=3 if quick else 25)
+    for sc in during:
+        sc["stopErr"] = False
+        sc["probes"] = False
+    scripts += [sc for sc in during if not sc.get("directed")]
     hists, owner = c05.execute(ctx, scripts)
     ok1, unex1 = c05.judge(ctx, scripts, hists, owner)
     # lifecycle scripts with panicking routines only
@@ -54,6 +61,19 @@ def run(ctx):
         for st in s["steps"]:
             if st.get("how"):
                 st["how"] = "panic"
+    # directed: the stop routine panics AND the stop of the same module runs into the (shortened) stop timeout because a
+    # worker overstays - Shutdown / the management pass must still return an error
+    F = lambda m, ok=True, how="": dict({"op": "finish", "m": m, "ok": ok}, **({"how": how} if how else {}))
+    for mgmt in (False, True):
+        steps = [{"op": "start", "m": 0, "ok": True}, F(1), F(2), F(1), F(2)]
+        if mgmt:
+            steps += [{"op": "toggle", "m": 2, "ok": False}, {"op": "manage", "m": 0, "ok": True}, F(2, False, "panic"),
+                      {"op": "shutdown", "m": 0, "ok": True}, F(1, False, "panic")]
+        else:
+            steps += [{"op": "shutdown", "m": 0, "ok": True}, F(2, False, "panic"), F(1, False, "panic")]
+        # (the stop routine panics at once, well within the stop timeout of 250 ms; only the worker overstays)
+        lscripts.append({"n": 2, "mgmt": mgmt, "deps": [[], [1]], "enabled": [True, True] if mgmt else [False, False],
+                         "steps": steps, "stopTimeoutMs": 250, "overstay": [2], "directed": "stoppanic-timeout", "eager": False})
     lh, lo = c01.execute(ctx, lscripts)
     ok2, unex2 = c01.judge(ctx, lscripts, lh, lo)
     # HTTP API handlers: the panic cells of the ApiAuth table (every endpoint function type, handlers that panic
